@@ -422,3 +422,83 @@ def check_no_process_wide_alias(ctx, rule, files, floor=10):
     if not bad:
         ctx.holds(rule, ",".join(files), f"{nfun} functions: no module-level container holds a reference to in-place updated instance state (positive control: the built-in fixture "
                   "is reported, its copying twin is not)", files[0])
+
+
+# ---------------------------------------------------------------------------- the value returned by a memoised function is shared: never updated in place
+_MEMO_MUT_FIXTURE = '''
+from functools import lru_cache
+@lru_cache(maxsize=8)
+def design(fs, a):
+    return np.ones((3, 2)) * fs, np.ones((3, 2)) * a
+class G:
+    def __init__(self, fs, a):
+        self._a, self._b = design(fs, a)
+        self._a[0] *= 2.0
+class H:
+    def __init__(self, fs, a):
+        a_, b_ = design(fs, a)
+        self._a = a_.copy(); self._b = b_
+        self._a[0] *= 2.0
+'''
+
+
+def _memo_result_mutations(mod):
+    memo = set()
+    for n in ast.walk(mod):
+        if isinstance(n, ast.FunctionDef) and any(("lru_cache" in ast.unparse(d) or ast.unparse(d).split(".")[-1] in ("cache", "memoize", "memoized")) for d in n.decorator_list): memo.add(n.name)
+    for st in mod.body:
+        if isinstance(st, ast.Assign) and len(st.targets) == 1 and isinstance(st.targets[0], ast.Name) and isinstance(st.value, ast.Call) and isinstance(st.value.func, ast.Call) \
+                and "lru_cache" in ast.unparse(st.value.func.func): memo.add(st.targets[0].id)
+    if not memo: return []
+    out = []
+    scopes = [c for c in ast.walk(mod) if isinstance(c, ast.ClassDef)] + [f for f in mod.body if isinstance(f, ast.FunctionDef)]
+    for sc in scopes:
+        alias = {}
+        for n in ast.walk(sc):
+            if isinstance(n, ast.Assign) and isinstance(n.value, ast.Call):
+                f = n.value.func
+                nm = f.id if isinstance(f, ast.Name) else f.attr if isinstance(f, ast.Attribute) else None
+                if nm in memo:
+                    for t in n.targets:
+                        for e in (t.elts if isinstance(t, (ast.Tuple, ast.List)) else [t]):
+                            if isinstance(e, (ast.Name, ast.Attribute)): alias[ast.unparse(e)] = (nm, n)
+        # plain re-binding of an alias to something fresh (x = x.copy()) ends the sharing: conservative - an alias rebound anywhere is dropped
+        for n in ast.walk(sc):
+            if isinstance(n, ast.Assign) and not (isinstance(n.value, ast.Call) and (getattr(n.value.func, "id", None) in memo or getattr(n.value.func, "attr", None) in memo)):
+                for t in n.targets:
+                    for e in (t.elts if isinstance(t, (ast.Tuple, ast.List)) else [t]):
+                        if isinstance(e, (ast.Name, ast.Attribute)) and ast.unparse(e) in alias: alias.pop(ast.unparse(e))
+        if not alias: continue
+        for n in ast.walk(sc):
+            tgt = None
+            if isinstance(n, ast.AugAssign) and isinstance(n.target, ast.Subscript): tgt = n.target.value
+            elif isinstance(n, ast.Assign):
+                for t in n.targets:
+                    if isinstance(t, ast.Subscript): tgt = t.value
+            elif isinstance(n, ast.Call) and isinstance(n.func, ast.Attribute) and n.func.attr in ("fill", "sort", "resize", "itemset", "put", "partition"): tgt = n.func.value
+            elif isinstance(n, ast.Call):
+                for k in n.keywords:
+                    if k.arg == "out": tgt = k.value
+            while isinstance(tgt, ast.Subscript): tgt = tgt.value
+            if tgt is not None and ast.unparse(tgt) in alias:
+                out.append((sc, ast.unparse(tgt), alias[ast.unparse(tgt)][0], n))
+    return out
+
+
+def check_memoised_results_not_mutated(ctx, rule, files, floor=10):
+    """what a memoising wrapper (functools.lru_cache) returns is the cached object itself: an in-place update by one caller changes what every later
+    caller with the same arguments receives (the k-th generator built with the same parameters gets a table rescaled k-1 times)."""
+    got = _memo_result_mutations(ast.parse(_MEMO_MUT_FIXTURE))
+    assert len(got) == 1 and got[0][0].name == "G", "rule self-test failed"
+    nfun = 0; bad = 0
+    for rel in files:
+        if rel not in ctx.repo.mods: continue
+        mod = ctx.repo.module(rel)
+        nfun += sum(1 for n in ast.walk(mod) if isinstance(n, ast.FunctionDef))
+        for sc, al, fnm, node in _memo_result_mutations(mod):
+            bad += 1
+            ctx.violated(rule, f"{rel}::{sc.name}[{norm_stmt(node)[:70]}]", f"{al} is (part of) the object returned by the memoised function {fnm}() and is updated in place: the cached "
+                         "entry itself changes, so every later call with the same arguments is served the modified table", f"{rel}:{node.lineno}")
+    ctx.need("functions scanned for in-place updates of memoised results", nfun, floor)
+    if not bad:
+        ctx.holds(rule, ",".join(files), f"{nfun} functions: no result of a memoised function is updated in place (positive control: the built-in fixture is reported, its copying twin is not)", files[0])
